@@ -114,6 +114,10 @@ def inlined(facts, body, depth=MAX_DEPTH, skip=None, tag=None, sugar=False):
                 tt = blk.get("term")
                 if tt and tt["k"] == "call" and not blk["cleanup"] and (tt.get("def") or "").startswith("std::iter::Iterator::") and not tt.get("synthetic"):
                     work.append((i, 1, (body.id,)))
+                elif tt and tt["k"] == "call" and tt.get("awaited") == "pending-construction":
+                    # an awaited `async fn` whose constructor call had not been inlined yet
+                    tt["awaited"] = "retry"
+                    work.append((i, 1, (body.id,)))
             if not work:
                 break
             continue
@@ -124,7 +128,7 @@ def inlined(facts, body, depth=MAX_DEPTH, skip=None, tag=None, sugar=False):
         t = b["term"]
         if b["cleanup"] or not t or t["k"] != "call" or dep >= depth:
             continue
-        if sg is not None and (sg.expand_simple(bi, dep, stack) or sg.expand_iter(bi, dep, stack) or sg.expand_closure_call(bi, dep, stack)):
+        if sg is not None and (sg.expand_simple(bi, dep, stack) or sg.expand_iter(bi, dep, stack) or sg.expand_closure_call(bi, dep, stack) or sg.expand_await(bi, dep, stack)):
             continue
         target = t.get("res") if not t.get("virtual") else None
         cb = facts.body(target or "")
